@@ -44,6 +44,10 @@ import (
 //	                     probe names a member of <list>, else -32022 with data.supported = <list>
 //	                     (U: the error travels with HTTP 400, http only)
 //	r<list>              a lax modern server: DiscoverResult(<list>) whatever the probe names
+//	x<list1>:<list2>     a server whose version check and whose DiscoverResult disagree (e.g. an SDK-wide list
+//	                     in the -32022 data, a transport-filtered one in the result): DiscoverResult(<list2>)
+//	                     when the probe names a member of <list1>, else -32022 with data.supported = <list1>
+//	n<list>              -32022 with data.supported = <list> whatever the probe names
 //
 // <list> = hex strings joined by '.', or '-' for the empty list.
 //
@@ -97,8 +101,13 @@ func (p ngPeer) answer(method string, params json.RawMessage) ngReply {
 		case strings.HasPrefix(d, "e"):
 			code, _ := strconv.Atoi(d[1:])
 			return ngReply{status: 200, code: -code}
-		case strings.HasPrefix(d, "u"), strings.HasPrefix(d, "U"), strings.HasPrefix(d, "r"):
+		case strings.HasPrefix(d, "u"), strings.HasPrefix(d, "U"), strings.HasPrefix(d, "r"), strings.HasPrefix(d, "x"), strings.HasPrefix(d, "n"):
 			l := ngList(d[1:])
+			res := l
+			if d[0] == 'x' {
+				a, b, _ := strings.Cut(d[1:], ":")
+				l, res = ngList(a), ngList(b)
+			}
 			var m struct {
 				Meta map[string]any `json:"_meta"`
 			}
@@ -106,12 +115,12 @@ func (p ngPeer) answer(method string, params json.RawMessage) ngReply {
 			asked, _ := m.Meta[ngMetaVersion].(string)
 			speaks := d[0] == 'r'
 			for _, v := range l {
-				if v == asked {
+				if v == asked && d[0] != 'n' {
 					speaks = true
 				}
 			}
 			if speaks {
-				return ngReply{status: 200, result: `{"resultType":"complete","supportedVersions":` + ngJSON(l) +
+				return ngReply{status: 200, result: `{"resultType":"complete","supportedVersions":` + ngJSON(res) +
 					`,"capabilities":{"tools":{}},"_meta":{"io.modelcontextprotocol/serverInfo":{"name":"foreign","version":"1"}}}`}
 			}
 			st := 200
@@ -317,6 +326,10 @@ func ngDiscClass(d string) string {
 		return "jsonrpc-error-" + d[1:]
 	case 'u', 'U':
 		return "version-checking-modern"
+	case 'x':
+		return "check-and-result-disagree"
+	case 'n':
+		return "always-unsupported-with-data"
 	}
 	return "lax-modern"
 }
@@ -370,6 +383,13 @@ func ngForeignCells() []ngForeignCell {
 		both = append(both, "u"+l, "r"+l)
 		httpOnly = append(httpOnly, "U"+l)
 	}
+	both = append(both,
+		"x"+ngHexList(protocolVersion20260728, protocolVersion20251125, protocolVersion20250618)+":"+ngHexList(protocolVersion20251125, protocolVersion20250618),
+		"x"+ngHexList(protocolVersion20260728)+":"+ngHexList("2099-12-31"),
+		"x"+ngHexList(protocolVersion20260728)+":-",
+		"x"+ngHexList(protocolVersion20251125)+":"+ngHexList(protocolVersion20260728),
+		"n"+ngHexList(protocolVersion20260728),
+		"n"+ngHexList("2099-12-31", protocolVersion20251125))
 	for _, st := range []string{"400", "401", "403", "404", "405", "406", "415", "422", "429", "500", "501", "502", "503"} {
 		httpOnly = append(httpOnly, "h"+st+"t")
 	}
@@ -634,25 +654,33 @@ func ngRunOpsFile(t *testing.T, out *verifOut, path, cs string) {
 	if err != nil {
 		t.Fatal(err)
 	}
+	// a case = a maximal run of `step` lines (they share one Server); `reset` ends it; every other op is
+	// self-contained and forms a case of its own
 	var cases [][]string
 	var cur []string
+	flush := func() {
+		if len(cur) > 0 {
+			cases = append(cases, cur)
+		}
+		cur = nil
+	}
 	for _, ln := range strings.Split(string(b), "\n") {
 		ln = strings.TrimSpace(ln)
 		if ln == "" || strings.HasPrefix(ln, "#") {
 			continue
 		}
 		if ln == "reset" {
-			if len(cur) > 0 {
-				cases = append(cases, cur)
-			}
-			cur = nil
+			flush()
+			continue
+		}
+		if !strings.HasPrefix(ln, "step ") {
+			flush()
+			cases = append(cases, []string{ln})
 			continue
 		}
 		cur = append(cur, ln)
 	}
-	if len(cur) > 0 {
-		cases = append(cases, cur)
-	}
+	flush()
 	for i, ops := range cases {
 		id := cs
 		if len(cases) > 1 {
